@@ -472,14 +472,16 @@ func (el *EventList) Verify(acc *Accumulator) error {
 	if count == 0 {
 		return nil
 	}
+	// The memoised verdict below only concerns the internal consistency of the chain. Whether the
+	// chain ends in the event hash of the specified accumulator has to be checked on every call.
+	if err = events[count-1].hashEquals(acc.EventHash); err != nil {
+		return errors.WrapPrefix(err, "update chain has wrong hash", 0)
+	}
 	if el.verified {
 		if el.validationErr != nil {
 			return el.validationErr
 		}
 		return nil
-	}
-	if err = events[count-1].hashEquals(acc.EventHash); err != nil {
-		return errors.WrapPrefix(err, "update chain has wrong hash", 0)
 	}
 
 	// Verify the hashes of the chain, computing the product of all revoked attributes along the way
